@@ -126,6 +126,10 @@ def structures(tier):
     # the same decoder on other words first (process-level memos keyed by part of the word), then the judged word
     for n in sorted({s[0] for s in SITES if s[1] == 'pair'} | {'BSC_ioctl'}):
         sts.append({'kind': 'twice', 'name': n})
+        # ... or another call that could leave per-process state behind (a creation mask, an open descriptor)
+        for other in ('BSC_umask', 'BSC_open'):
+            if other != n:
+                sts.append({'kind': 'twice', 'name': n, 'other': other})
     if tier == 'thorough':
         for acc in range(4):
             for hi in range(8):
@@ -309,10 +313,14 @@ def run_twice(ctx, st):
     if o1.kind != 'text':
         ctx.reach('outcome:' + o1.kind); ctx.reach(); return
     sweep.reset_state()
-    sweep.run_window(ctx, name, a, r)
-    o2 = sweep.run_window(ctx, name, b, r)
+    if st.get('other'):
+        # same parser object: the earlier call is a window of its own before the judged one
+        o2 = sweep.run_window(ctx, name, b, r, prior=[(st['other'], a, [0, ctx.int('oret'), 0, 0])])
+    else:
+        sweep.run_window(ctx, name, a, r)
+        o2 = sweep.run_window(ctx, name, b, r)
     sweep.reset_state()
-    L = 'C11/%s/after-another-word' % name
+    L = 'C11/%s/after-%s' % (name, st.get('other', 'another-word'))
     if o2.kind != 'text':
         ctx.check(L, False, 'second decoding: ' + o2.kind)
     else:
